@@ -22,7 +22,10 @@ struct S {
 
 impl S {
     fn new() -> Self {
-        S { dir: tempfile::tempdir().expect("tempdir"), wal: None, eng: None }
+        // a memory-backed directory when there is one: the cases fsync a lot and must not depend on disk load
+        let shm = std::path::Path::new("/dev/shm");
+        let dir = if shm.is_dir() { tempfile::tempdir_in(shm).or_else(|_| tempfile::tempdir()) } else { tempfile::tempdir() };
+        S { dir: dir.expect("tempdir"), wal: None, eng: None }
     }
     fn wal_path(&self) -> PathBuf {
         self.dir.path().join("db.wal")
@@ -48,6 +51,8 @@ fn class(e: &nervusdb_storage::Error) -> &'static str {
 impl State for S {
     fn step(&mut self, ws: &[&str]) -> String {
         match ws {
+            // one owner at a time: a second open while a handle is alive is not part of any generated history
+            ["eopen"] | ["wopen"] if self.eng.is_some() || self.wal.is_some() => "bad-op".into(),
             ["wopen"] => match Wal::open(self.wal_path()) {
                 Ok(w) => {
                     self.wal = Some(w);
@@ -75,18 +80,16 @@ impl State for S {
                 Wal::replay_committed_from_path(self.wal_path())
             } {
                 Ok(txs) => {
-                    let ids = if txs.is_empty() { "-".to_string() } else { txs.iter().map(|t| t.txid.to_string()).collect::<Vec<_>>().join(",") };
-                    let head = format!("ok {} {}", txs.len(), ids);
-                    if txs.is_empty() {
-                        head
+                    let body = if txs.is_empty() {
+                        "-".to_string()
                     } else {
-                        let detail = txs
-                            .iter()
+                        txs.iter()
                             .map(|t| format!("{}={}", t.txid, t.ops.iter().map(show_rec).collect::<Vec<_>>().join(";")))
                             .collect::<Vec<_>>()
-                            .join(" ");
-                        format!("{} | {}", head, detail)
-                    }
+                            .join("|")
+                    };
+                    // `/` separates alternatives in a spec field: records are rendered with `~` here
+                    format!("ok {} {}", txs.len(), body.replace('/', "~"))
                 }
                 Err(e) => format!("err {}", class(&e)),
             },
@@ -104,6 +107,14 @@ impl State for S {
             ["eclose"] => {
                 self.eng = None;
                 "ok".into()
+            }
+            ["eprops"] => {
+                use nervusdb_api::{GraphSnapshot, GraphStore};
+                let Some(eng) = self.eng.as_ref() else { return "err | noengine".into() };
+                let snap = eng.snapshot();
+                let vals: Vec<String> =
+                    (0..6u32).map(|i| snap.node_property(i, "k").map(|v| show_val(&v)).unwrap_or_else(|| "-".to_string())).collect();
+                format!("ok {}", vals.join("|"))
             }
             ["ecommit", ext, rest @ ..] => {
                 let Ok(ext) = ext.parse::<u64>() else { return "bad-op".into() };
@@ -342,7 +353,7 @@ fn generate(rng: &mut Rng, n: usize, tier: &str, out: &mut dyn Write) {
     let chops: Vec<usize> = if thorough { (0..=70).collect() } else { (0..=70).step_by(3).collect() };
     for k in chops {
         writeln!(out, "#case engine chop{k}").unwrap();
-        for l in ["eopen", "ecommit 10", "ecommit 11", "ecommit 12", "eclose", &format!("chop {k}"), "eopen", "ecommit 13", "eclose", "eopen", "ecommit 14", "eclose", "read", "wlen"] {
+        for l in ["eopen", "ecommit 10", "ecommit 11", "ecommit 12", "eclose", &format!("chop {k}"), "eopen", "ecommit 13", "eclose", "eopen", "ecommit 14", "eclose", "read", "eopen", "eprops", "ecommit 15 i5", "eclose", "eopen", "eprops", "eclose", "read", "wlen"] {
             writeln!(out, "{l}").unwrap();
         }
     }
@@ -453,6 +464,68 @@ fn generate(rng: &mut Rng, n: usize, tier: &str, out: &mut dyn Write) {
             for l in ["ecommit 12", "eclose", "read", "eopen", "ecommit 13", "eclose", "read"] {
                 writeln!(out, "{l}").unwrap();
             }
+        }
+    }
+    // I. a txid handed out twice: the tail tears a transaction after some complete records (every cut position),
+    //    recovery hands its id out again, a NEW transaction with the SAME txid and different operations commits.
+    //    The committed transactions are exactly the complete BeginTx…CommitTx blocks in file order, the new block
+    //    carrying ONLY its own operations.
+    let n_reuse = if thorough { 4 } else { 2 };
+    for li in 0..n_reuse {
+        let mut log = Vec::new();
+        for t in 1..=2u64 {
+            log.push(WalRecord::BeginTx { txid: t });
+            for _ in 0..(2 + rng.below(2)) {
+                log.push(gen_op(rng));
+            }
+            log.push(WalRecord::CommitTx { txid: t });
+        }
+        let lens: Vec<usize> = log.iter().map(|r| frame_of(r).len()).collect();
+        let total: usize = lens.iter().sum();
+        for k in 0..=total {
+            // the transaction the cut falls into
+            let keep = total - k;
+            let mut end = 0usize;
+            let mut torn_txid = 2u64;
+            let mut cur = 0u64;
+            for (r, l) in log.iter().zip(&lens) {
+                if let WalRecord::BeginTx { txid } = r {
+                    cur = *txid;
+                }
+                end += l;
+                if end > keep {
+                    torn_txid = cur;
+                    break;
+                }
+            }
+            writeln!(out, "#case reuse log{li} chop{k} txid{torn_txid}").unwrap();
+            write_log(out, &log);
+            writeln!(out, "chop {k}").unwrap();
+            for l in ["read", "wopen"] {
+                writeln!(out, "{l}").unwrap();
+            }
+            writeln!(out, "wappend B/{torn_txid}").unwrap();
+            writeln!(out, "wappend CE/77/1/77").unwrap();
+            writeln!(out, "wappend SNP/3/6b/i-1").unwrap();
+            writeln!(out, "wappend C/{torn_txid}").unwrap();
+            for l in ["wclose", "read", "wopen", "wclose", "read"] {
+                writeln!(out, "{l}").unwrap();
+            }
+        }
+    }
+    // the same through the engine: each commit in its own session, so that the torn last transaction is the first
+    // of its session and its id (max committed + 1) is handed out again after recovery; every cut position
+    // (B 17 + CreateNode 25 + SetNodeProperty 27 + Commit 17 = 86 bytes): after k = 0..3 complete records, and
+    // inside each record; all 87 positions in the thorough tier
+    let cuts: Vec<usize> = if thorough { (0..=86).collect() } else { vec![0, 1, 9, 17, 20, 30, 44, 50, 60, 69, 75, 86] };
+    for k in cuts {
+        writeln!(out, "#case engine reuse chop{k}").unwrap();
+        for l in ["eopen", "ecommit 10 i1", "eclose", "eopen", "ecommit 11 i2", "eclose", "eopen", "ecommit 12 i666", "eprops", "eclose"] {
+            writeln!(out, "{l}").unwrap();
+        }
+        writeln!(out, "chop {k}").unwrap();
+        for l in ["eopen", "eprops", "ecommit 13 i7", "eprops", "eclose", "eopen", "eprops", "eclose", "read", "eopen", "ecommit 14 i8", "eclose", "eopen", "eprops", "eclose", "read"] {
+            writeln!(out, "{l}").unwrap();
         }
     }
     // F. random tails and random damage
